@@ -21,6 +21,11 @@ def run(chk):
             # which messages exist is the business of C01-C03; but a challenge/mode line relayed to the wrong or to no client is ours
             dk = sorted((a, b) for a, b, c in dp if a in "CM"); mk = sorted((a, b) for a, b, c in (mp or []) if a in "CM")
             dv = sorted((acc(a), b) for a, b, c in dp if a in "kRD"); mv = sorted((acc(a), b) for a, b, c in (mp or []) if a in "kRD")
+            # a refusal from an awaited service that does not reject the client (first clause of the property): the model, for which
+            # refusal_rejects_with_that_text is proved, prints the k line in this step and the daemon does not
+            mks = [x for x in (mp or []) if x[0] == 'k']
+            if mks and not all(x in dp for x in mks) and scn.items[i][0] == 'L' and b" :NO" in scn.items[i][1]:
+                return ("step %d (%s): the refusal of an awaited service did not reject the client with that text: daemon %r, expected %r" % (i, step_label(scn, i), dp, mp), True)
             if dv == mv and dk != mk:
                 return ("step %d (%s): challenge / +x messages differ: daemon %r, expected %r" % (i, step_label(scn, i), [x for x in dp if x[0] in 'CM'], [x for x in mp if x[0] in 'CM']), True)
             return None
